@@ -100,7 +100,7 @@ PROPS["C16"] = P(["provider", "waitpay", "rpc"],
 
 PROPS["C17"] = P(["codec", "driver", "driver_run", "dispatch", "logwriter"],
     "Proof of the codec half (Verus): MultiLineCodec::decode and find_separator verbatim: without a blank-line separator decode returns Ok(None) and leaves the buffer untouched; otherwise it consumes exactly the bytes up to and including the FIRST separator and returns the UTF-8 text before it (Err iff not UTF-8), no index/overflow panic. JsonCodec::{decode, encode} and JsonRpcCodec::decode on top of it: each frame is consumed exactly once and yields the value / message its text parses to (serde_json parsing is an uninterpreted partial function), a malformed frame is an error or nothing but never a made-up value; encode appends the rendering of exactly one value followed by the separator. Lemmas: appending bytes never moves the first separator (chunking independence), and a split inside the separator is found once both bytes are present. Reply path (E6 slice of PluginDriver::dispatch_one, the body of the task spawned per request): once the handler has finished exactly one reply carrying that request's id is handed to the writer queue (send waits for room), the result on success and the error object otherwise. Writer loop: PluginDriver::run (whole function, E3 on its select!, loop invariant) writes every reply it takes out of the reply channel to stdout, once and in order, before the next round. Log writer task: start_writer (src/cln_plugin/logging.rs, whole function; the block it spawns is verified in place, E15b; guards tracked by E7) writes through the writer it shares with the driver, takes the lock once per log entry and never holds it while waiting for the next entry (a held lock would keep every reply from being written). Everything else in C17 is not applicable.",
-    "Trusted: " + TB_COMMON + " env/codec_env.rs: BytesMut (split_to, range index, len), and the std semantics of iter().zip(iter().skip(1)).position(pred) (first index whose pair satisfies the predicate) as an env iterator model; the predicate closure itself is checked (E8). utf8() is under an assumed contract; encode() is verified against vstd's UTF-8 view of str (spec_bytes): the frame written is the text's bytes followed by exactly \"\\n\\n\". "
+    "Trusted: " + TB_COMMON + " env/codec_env.rs: BytesMut (split_to, range index, len), and the std semantics of iter().zip(iter().skip(1)).position(pred) (first index whose pair satisfies the predicate) as an env iterator model; the predicate closure itself is checked (E8). utf8() is proved on its real body (std str::from_utf8 assumed: succeeds exactly on UTF-8 byte strings, with the text they encode); encode() is verified against vstd's UTF-8 view of str (spec_bytes): the frame written is the text's bytes followed by exactly \"\\n\\n\". "
     "env/driver_env.rs: tokio mpsc send/try_send, the two json! reply shapes as opaque constructors. NOT APPLICABLE clauses: FramedRead's read loop (tokio-util), that every request reaches dispatch_one and its task is spawned (boxed callbacks, tokio::spawn), non-interleaved concurrent writes (tokio::spawn'ed boxed callbacks, json!, FramedWrite behind a mutex), JSON well-formedness (serde_json).",
     assumptions=["tokio-util FramedRead appends the bytes read and calls decode until it returns None", "std slice iteration semantics (env model)"],
     not_covered=["JsonRpc::deserialize (request / notification classification by the `id` member: serde glue around a derive inside the function)", "dispatch_one outside its four slices -- lookup of method / handler / params of a request, reply path, and the two tails that start the handler tasks (no suspension point after the message was read; each handler started exactly once as a task of its own) -- i.e. the match on the message kind and the notification arm's member lookup (src/cln_plugin/mod.rs), and the cancellation of partially executed select! branch futures: PluginDriver::run is verified with every branch future as one atomic, cancellation-safe call (E3 refuses anything else: exit 2), dispatch_one being ASSUMED cancellation safe"])
@@ -108,7 +108,7 @@ PROPS["C17"] = P(["codec", "driver", "driver_run", "dispatch", "logwriter"],
 PROPS["C19"] = P(["config", "provider", "initopts", "optread"],
     "Proof (Verus) on two E6 slices of main() (src/main.rs): (a) from the first cp.option(..) to the construction of the payment provider, (b) the statement that builds HtlcManager::new(HtlcManagerParams{..}): it refuses to start iff a value is out of its target range or policy delta <= safety delta; (c) the statement of Builder::handle_init (src/cln_plugin/mod.rs) that turns the `init` message's JSON value into the option's value: the configured string/integer/bool exactly, the declared default when absent, no normal return for any other JSON type; otherwise safety delta, advertised/enforced policy, MPP timeout, self-route-hint flag, payment timeout and xpay equal the configured values (options are distinct opaque tokens, so a swapped option is a failed obligation). PayPaymentProvider::new caps the retry time at 65535 s. (d) unit optread: the statement of handle_init that stores the value (under exactly the option's own name, other entries untouched), ConfiguredPlugin::option / option_str (the value stored under the option's own name, read through the option's own OptionType::from_value; an unregistered name is an error), and the OptionType impls of the integer / boolean / flag kinds (from_value returns exactly the stored integer / boolean or does not return; declared defaults are offered unchanged).",
     "Trusted: " + TB_COMMON + " env/config_env.rs (ConfiguredPlugin::option returns the value CLN delivered: uninterpreted cfg_*; E11: option descriptors become opaque distinct tokens, name/default/description dropped). HtlcManager::new is verified to store the parameters as given; PayPaymentProvider::new enters under its contract (proved in unit provider). The statements of main() between the two slices (block watcher start, store, e-mail service) are not under contract; that the locals flowing from slice (a) into slice (b) are the same is plain data flow of main() (no reassignment), checked by rustc's immutability (the locals are not `mut`).",
-    assumptions=["the option table handle_init fills is the one ConfiguredPlugin::option reads (Builder::configure moves `option_values` into the ConfiguredPlugin: one struct-literal field, not under contract); std HashMap insert/get semantics (env model)"],
+    assumptions=["Builder::configure calls handle_init before it builds the ConfiguredPlugin (the hand-over of `option_values` itself is proved: slice configure#handover; the statements of configure in front of it -- getmanifest / init handshake -- are not under contract); std HashMap insert/get semantics (env model)"],
     not_covered=["statements of main() outside its four slices (options, watcher, manager, state): the e-mail service, the store constructor, cp.start / join"])
 
 PROPS["C20"] = P(["height", "rpc", "hooks", "dispatch"],
